@@ -139,8 +139,9 @@ class C17:
                 return acc
             return {frozenset([atom(e)])}
 
+        from sa.guards import nnf
         try:
-            got = dnf(test)
+            got = dnf(nnf(test))
         except linear.Undecided as e:
             rep.error("rule=C17.A2 reason=undecided: %s" % e)
             return
@@ -295,3 +296,24 @@ def run(ctx: Ctx, rep: Report, tier: str):
         and isinstance(asg[0].value.right, ast.Constant) and asg[0].value.right.value >= 1
     rep.check("C17.A10", "SyncManager.__init__|aging", init, good, "aging = max(sleep) / k", "the default ageing interval is no longer max(sleep) / k with k >= 1", nontrivial=False)
     rep.assume("time.time() is the clock the property's 'now' refers to")
+    rep.rule("C17.A11", "the order is computed on complete information: SyncState.change resolves the missing paths (which set the priority) of the WHOLE pending set "
+             "before it sorts - the loop with get_latest over the set being sorted dominates sorted()", 1)
+    chf = ctx.prog.func("SyncState.change")
+    g_ = ctx.cfg(chf)
+    srt = [n for n in ctx.own_nodes(chf) if isinstance(n, ast.Call) and isinstance(n.func, ast.Name) and n.func.id == "sorted" and n.args]
+    if not srt:
+        raise AnalysisError("SyncState.change no longer sorts the pending set")
+    for s_ in srt:
+        coll = ast.unparse(s_.args[0])
+        fills = [lp for lp in ctx.own_nodes(chf) if isinstance(lp, ast.For) and ast.unparse(lp.iter) == coll
+                 and any(isinstance(x, ast.Call) and isinstance(x.func, ast.Attribute) and x.func.attr in ("get_latest", "unconditionally_get_latest") for x in ast.walk(lp))]
+        iters = [n for n in g_.nodes if n.kind == "iter" and any(n.ast is lp for lp in fills)]
+        tgt = g_.stmt_nodes_containing(s_)
+        pth = g_.reach([g_.entry.id], lambda n: n in tgt, avoid=lambda n: n in iters, follow=NORMAL) if iters else []
+        rep.check("C17.A11", "change|paths-before-sort", ctx.line(chf, s_), bool(iters) and pth is None, "path resolution over `%s` dominates sorted(%s)" % (coll, coll),
+                  "the pending set is sorted before the path-less entries got their path (and with it their priority): an old low-priority-class change is attempted "
+                  "before a younger eligible change of a more urgent class", witness=describe_path(pth) if pth else None)
+    from rules.common import alias as _alias
+    from rules.C15 import C15 as _C15
+    _alias(rep, ["C15.R2"], "C17.A12", "aging is decided and acted on atomically: picking the aged entry (state.change(aging)) and syncing it share one lock region (C15.R2), "
+           "so a fresh notification cannot slip in between the age test and the transfer", 1, lambda: _C15(ctx, rep).r2(), keep=lambda i: i.key.endswith("SyncManager.do"))
